@@ -28,7 +28,7 @@ RULE = ('seeded generator: tilt angles giving 0.01 px .. more than the output si
 ASSUMPTIONS = ['numerically solved dispersion/trace orders are compared to 1e-6 relative',
                'segments whose pixels are collinear (rank-deficient tip/tilt fit) are skipped']
 PLAN = {'quick': {'gen': 8}, 'thorough': {'gen': 16, 'tests': 1}}
-REQUIRED_BUCKETS = ['defaults', 'tilt:subpixel', 'tilt:pixels', 'tilt:beyond-output', 'du:aniso', 'du:iso', 'os>1', 'segmented',
+REQUIRED_BUCKETS = ['defaults', 'reuse', 'tilt:subpixel', 'tilt:pixels', 'tilt:beyond-output', 'du:aniso', 'du:iso', 'os>1', 'segmented',
                     'rep:ramp', 'rep:plane', 'rep:wavefront', 'rep:fit', 'multi-tilt', 'scan', 'disp:propagated', 'sequence', 'disp:order1', 'disp:order>1',
                     'refit-after-update', 'refit-segmented', 'fit:flat-segments', 'fit:fill-outside-mask', 'opd:not-c-contiguous', 'fit:array-dtypes', 'scalars:float32']
 REQUIRED_ANCHORS = ['anchor:Tilt.shift', 'anchor:Field.shift', 'anchor:fit_tilt', 'anchor:ptt_vector',
